@@ -47,6 +47,13 @@ func VerifC15Failures() {
 	tbl := aws.String(vTbl)
 	steps := nd.Param("steps", 1)
 	for step := 0; step < steps; step++ {
+		// the condition may be activated while the other one is still active: the latest activation counts
+		switch nd.Choice("already-active", 3) {
+		case 1:
+			EmulateFailure(c, FailureConditionInternalServerError)
+		case 2:
+			ActiveForceFailure(c)
+		}
 		internal := false
 		switch nd.Choice("condition", 3) {
 		case 0:
@@ -101,7 +108,15 @@ func VerifC15Failures() {
 		case 5:
 			_, err = c.Scan(vCtx, &dynamodb.ScanInput{TableName: tbl, ExpressionAttributeNames: names})
 		case 6:
-			_, err = c.BatchGetItem(vCtx, &dynamodb.BatchGetItemInput{RequestItems: map[string]types.KeysAndAttributes{vTbl: {Keys: []vItem{{"p": vS("k")}}}}})
+			// any composition, also a batch that names no key at all
+			bk := map[string]types.KeysAndAttributes{vTbl: {Keys: []vItem{{"p": vS("k")}}}}
+			switch nd.Choice("batchget-keys", 3) {
+			case 1:
+				bk = map[string]types.KeysAndAttributes{}
+			case 2:
+				bk = map[string]types.KeysAndAttributes{vTbl: {Keys: []vItem{}}}
+			}
+			_, err = c.BatchGetItem(vCtx, &dynamodb.BatchGetItemInput{RequestItems: bk})
 		case 7:
 			_, err = c.TransactWriteItems(vCtx, &dynamodb.TransactWriteItemsInput{})
 		case 8:
